@@ -412,6 +412,8 @@ def C04():
                          functions=["constructor + Message::write"], timeout=1500, mem_gb=12))
     jobs.append(MirJob("c04_mir_ntlm_authenticate_layout", "NTLM AUTHENTICATE token: every (Len, MaxLen, BufferOffset) addresses its field for all field lengths < 65536 and all flags; Version field consistent with the offset base (shared with C15)", mirjobs.authenticate_layout))
     jobs.append(MirJob("c04_mir_info_packet_counts", "Client Info: cbDomain/cbUserName/cbPassword equal the byte size of the UTF-16 buffers actually sent minus the 2-byte terminator, for every string (SMT on the lengths)", mirjobs.info_packet_counts))
+    jobs.append(MirJob("c04_mir_emitter_lengths", "share_control_header / share_data_header / ts_confirm_active_pdu / capability_set: for every size of the variable part up to 65535 - K (SMT, z3 + cvc5): the length or count field equals that size + K, it is computed from the object actually sent, the size announced to a reader of the same layout is exactly that size and names that field, and the u16 arithmetic cannot overflow",
+                       mirjobs.emitter_lengths))
     jobs.append(MirJob("c04_mir_extended_info_counts", "Extended Client Info (sent to RDP 5+ servers): field order; cbClientAddress / cbClientDir equal the byte size (terminator included) of the buffers sent after them; the size the count announces to the record container is the count itself for every value (SMT); clientTimeZone is 172 bytes", mirjobs.extended_info_counts))
     jobs.append(MirJob("c04_mir_core_data_name", "gcc::client_core_data: the clientName computation has no reachable panicking slice/index/unwrap and no failing arithmetic for any name (length symbolic)",
                        mirjobs.multi(mirjobs.panic_sites([(r"^client_core_data$", [(r"Option::<ClientData>::unwrap_or$", 1, "default parameters")])], {r"^client_core_data$": mirjobs.CORE_DATA_NATIVE}),
